@@ -202,6 +202,18 @@ def ids (st : St) : List Ref := sortBy (fun a b => decide (a ≤ b)) (st.defs.ma
 
 def pnIds (st : St) : List Ref := (ids st).filter fun r => kindIs st.defs r isPn
 
+/-- Index.KeyId / Corpus.KeyId of every key blob of the world: the corpus learns signer -> key id
+(corpus.go:580 addKeyID, from `mm.signerID`) in exactly the commits that write the `signerkeyid:` row
+(receive.go populateClaim sets both), so the answer is that of the rows, live and after a reload -/
+def keyIdStr (st : St) : String :=
+  let ks := (ids st).filterMap fun r =>
+    if kindIs st.defs r isKey then
+      match SMap.get st.s.rows (kSignerKeyId r) with
+      | some [kid] => some s!"b{r}:K{kid}"
+      | _ => none
+    else none
+  s!";K={joinOr ks}"
+
 def recvDrain (st : St) (s : State) (b : Ref) : State :=
   State.drain (worldOf st.defs) (fuelOf st * fuelOf st) (s.receive (worldOf st.defs) b)
 
@@ -271,10 +283,10 @@ def step (st : St) (ws : List String) : St × String :=
       ({ st with s := s }, if s.needs.isEmpty then "ok" else "needed")
     | ["obs"] =>
       match st.s.observe (ids st) (pnIds st) (fuelOf st) with
-      | some o => (st, obsStr o)
+      | some o => (st, obsStr o ++ keyIdStr st)
       | none => (st, "bad-op")
     | ["obsr"] =>
-      if st.withC then (st, obsStr (observeReload st.s.rows (ids st) (pnIds st) (fuelOf st))) else (st, "bad-op")
+      if st.withC then (st, obsStr (observeReload st.s.rows (ids st) (pnIds st) (fuelOf st)) ++ keyIdStr st) else (st, "bad-op")
     | ["close"] => ({ st with dead := true }, "ok")
     | _ => (st, "bad-op")
 
